@@ -140,7 +140,9 @@ class SchedulingProblem(NamedUIDObject):
             self.append_z3_assertion(self._horizon <= self.horizon)
 
         # the counter to be decremented in the get_unique_negative_integer method
-        self._unique_integer = -1
+        # only even values are used (-2, -4, ...), the odd ones being reserved for the
+        # dates of the optional tasks that are not scheduled
+        self._unique_integer = 0
 
     def get_unique_negative_integer(self) -> int:
         """this function returns a negative integer for which we
@@ -150,7 +152,7 @@ class SchedulingProblem(NamedUIDObject):
         move tasks from/to past. Each time this method is called,
         the self._unique_integer counter is decremented
         """
-        self._unique_integer += -1
+        self._unique_integer += -2
         return self._unique_integer
 
     def add_from_json_file(self, filename: str):
